@@ -575,7 +575,7 @@ impl DateFilter for ds::WeekDayRange {
                 } else {
                     calendar
                         .first_after(date_with_offset)
-                        .map(|following| following + Duration::days(*offset))
+                        .and_then(|following| following.checked_add_signed(Duration::days(*offset)))
                         .unwrap_or_else(|| DATE_END.date())
                 }
             }),
